@@ -85,8 +85,11 @@ theorem add_dup_live_class (t : Tree) (p : Bytes) (h : Handler) (ms : List Nat) 
 there is a chain of existing nodes from the root to a node WITH HANDLERS such that the new pattern
 text is consumed step by step along the chain — each step either because the node's text is a
 literal prefix of the remaining pattern, or because the node's segment `isAmbiguous` with the first
-segment of the remaining pattern (same kind, rule, suffix, endpoint; different name or `-` flag) —
-and at least one step is of the second kind. -/
+segment of the remaining pattern (same kind, rule, suffix, endpoint; different name or `-` flag), or
+(D33 repair, `AmbPath.pre`) because the node is the upper half of a split parameter node: the same
+token as that first segment up to the name or the `-` flag, its literal suffix a proper prefix of the
+segment's suffix (`isAmbiguousPrefix`), the walk going on below it with the rest of that suffix —
+and at least one step is of the second or third kind. -/
 theorem add_ambiguous_sound (t : Tree) (p : Bytes) (h : Handler) (ms : List Nat) (methods : List Bytes)
     (he : t.add p h ms methods = .error .ambiguous) :
     t.root.checkAmb t.ic p false = .ok (some true) ∧
